@@ -1,18 +1,24 @@
 (** C13 — automata conversions and combinators compute the intended regular languages.
     Statements only; proofs live in C13/Proofs*.v. *)
 From Coq Require Import ZArith List Bool.
-From Algo.C13 Require Import Model Spec Lemmas ProofsNFA ProofsDFA ProofsSM ProofsUnion ProofsStar ProofsSubset ProofsSubsetTerm ProofsElim ProofsMinQuot ProofsMinRound ProofsReindex ProofsCombine ProofsMinimal ProofsMinTerm ProofsIso.
+From Algo.C13 Require Import Model Spec Lemmas ProofsNFA ProofsDFA ProofsSM ProofsUnion ProofsStar ProofsSubset ProofsSubsetTerm ProofsElim ProofsMinQuot ProofsMinRound ProofsReindex ProofsCombine ProofsMinimal ProofsMinTerm ProofsIso ProofsIsoNFA.
 Import ListNotations.
 Open Scope Z_scope.
 
-(** Domain.  [nwf]/[dwf]: the transition tables are keyed in strictly increasing order — true of
+(** Domain.  [nwf]/[dwf]: the transition tables are keyed in strictly increasing order ([nsorted]: the
+    target sets too) — true of
     everything built through NewNFA/NewDFA + Add ([C13_constructible]) and of every result.
     [word_ok]: input words do not contain ε (symbol 0).  [dfa_ok]: state ids are non-negative
     (DFA.Next reserves -1 for "no transition").  [dfa_noeps]: no DFA transition is labelled 0. *)
 Theorem C13_constructible :
-  (forall start final adds, nwf (nbuild start final adds)) /\
+  (forall start final adds, nwf (nbuild start final adds) /\ nsorted (nbuild start final adds) /\
+                            NoDup (nfinal (nbuild start final adds))) /\
   (forall start final adds, dwf (dbuild start final adds) /\ NoDup (dfinal (dbuild start final adds))).
-Proof. split; [exact nwf_nbuild | intros; split; [apply dwf_dbuild | apply dbuild_final_nodup]]. Qed.
+Proof.
+  split; intros.
+  - split; [apply nwf_nbuild|]. split; [apply nsorted_nbuild | apply nbuild_final_nodup].
+  - split; [apply dwf_dbuild | apply dbuild_final_nodup].
+Qed.
 
 (** NFA.Accept (ε-closure worklist + move) terminates on every automaton and word and decides the
     path language: w is accepted iff some path labelled w (ε-moves interleaved) leads from the
@@ -90,6 +96,11 @@ Theorem C13_iso_dfa : forall (d : dfa) (f : Z -> Z), dwf d -> NoDup (dfinal d) -
   disomorphic d (dpermute d f) = true.
 Proof. exact disomorphic_renamed. Qed.
 
+Theorem C13_iso_nfa : forall (n : nfa) (f : Z -> Z), nwf n -> nsorted n -> NoDup (nfinal n) ->
+  (forall x y, In x (nstates n) -> In y (nstates n) -> f x = f y -> x = y) ->
+  nisomorphic n (npermute n f) = true.
+Proof. exact nisomorphic_renamed. Qed.
+
 (** Union (receiver first) accepts exactly the union of the operand languages. *)
 Theorem C13_union : forall (ns : list nfa) (w : list Z), Forall nwf ns -> word_ok w ->
   exists b, naccept (nunion ns) w = Ok b /\ (b = true <-> exists n, In n ns /\ naccept n w = Ok true).
@@ -150,6 +161,7 @@ Print Assumptions C13_minimal.
 Print Assumptions C13_reindex_states.
 Print Assumptions C13_combine_dfa.
 Print Assumptions C13_iso_dfa.
+Print Assumptions C13_iso_nfa.
 Print Assumptions C13_union.
 Print Assumptions C13_star.
 Print Assumptions C13_concat_refuted.
